@@ -9,6 +9,8 @@
    The directory is a function slot -> <<generation id, #records>> (slot 0 = the live file `path`,
    slot k = `path.k`; <<0, 0>> = no such file).  Slots N+1 .. N+Extra are pre-existing generations
    beyond the retention window (left over from a larger --backups).  Generation ids grow with time.
+   An interruption is a process death between two steps or a step that fails with an error: a failed
+   rename changes nothing (its source stays in place) and the rotation stops there with the error.
    A rotation is one action parameterised by the number c of cascade steps performed before it is
    interrupted (c = N+1: complete), so every interruption point is a reachable state on which the
    invariants are evaluated.  h records the history for spec-to-code replay. *)
